@@ -404,17 +404,21 @@ impl SwarmDriver {
                 } else {
                     debug!("For record {pretty_key:?} task {query_id:?}, fetch completed with split record");
                     let mut accumulated_transactions = BTreeSet::new();
+                    // Only a split in which every version is a transaction record is merged here.
+                    // A version of another kind must not be dropped in favour of what a single peer returned:
+                    // such a split is handed to the caller with all of its versions.
+                    let mut all_versions_are_transactions = true;
                     for (record, _) in result_map.values() {
                         match get_transactions_from_record(record) {
                             Ok(transactions) => {
                                 accumulated_transactions.extend(transactions);
                             }
                             Err(_) => {
-                                continue;
+                                all_versions_are_transactions = false;
                             }
                         }
                     }
-                    if !accumulated_transactions.is_empty() {
+                    if all_versions_are_transactions && !accumulated_transactions.is_empty() {
                         info!("For record {pretty_key:?} task {query_id:?}, found split record for a transaction, accumulated and sending them as a single record");
                         let accumulated_transactions = accumulated_transactions
                             .into_iter()
